@@ -31,12 +31,15 @@ RULE = (
     "history is non-trivial when a rejected call lies between two successful ones; distinct = distinct "
     "canonical history strings; classes fresh / tracker_fresh: the same histories on a random rig, but over a "
     "family of 4-8 near-identical circuits (each one mutation away from an earlier member: one parameter "
-    "changed - far, by 0.001, negated, +2pi -, one gate moved to another qubit / replaced by a gate of the same "
+    "changed - far, by 0.001, by less than numpy.allclose's tolerance (1e-15 .. 5e-9 absolute, 2e-7 .. 1e-6 relative: the "
+    "library's own circuit equality calls such circuits equal), negated, +2pi -, one gate moved to another qubit / replaced by a gate of the same "
     "arity, idle qubits added or removed, an operation appended / prepended / dropped / duplicated, two "
     "neighbours swapped, an equal copy) whose circuit objects and per-circuit count sequences are built for "
     "each call and dropped after it (about 20 % of the members stay alive instead; an index occurring twice "
     "in a batch is the same object or two equal ones), so that addresses of dead circuits are reused by "
-    "different live ones (tallied) and every coarse view of a circuit has a collision inside one history"
+    "different live ones (tallied) and every coarse view of a circuit has a collision inside one history; after one "
+    "accepted call in four of these classes the same request is issued again with each circuit replaced by a relative "
+    "(parent / child in the family) - as the same kind of call, as a distribution request, or as a batch [c, c', c]"
 )
 ASSUMPTIONS = [
     "sample counts are Python ints or lists/tuples of Python ints (numpy integers are not ints for the library's own isinstance test and are outside the workload)",
@@ -44,7 +47,7 @@ ASSUMPTIONS = [
     "circuits containing MultiPhaseOperation are not sent through the tracker (to_dict cannot serialise them - a C05 matter)",
     "for the tracker only monotone counters, no movement on a rejected call and +1/+1 for a single run (inherited base-class path) are demanded; the growth on a successful batch is not specified by the property",
     "a valid request on which the harness runner itself fails (DeviceFailure) must count only the circuits that completed",
-    "a record's serialised circuit is compared with the library's to_dict of the circuit that was passed and, independently of the serialiser, read field by field (n_qubits, gate names, qubit indices, parameters parsed as floats to 1e-9 relative)",
+    "a record's serialised circuit is compared with the library's to_dict of the circuit that was passed and, independently of the serialiser, read field by field (n_qubits, gate names, qubit indices, parameters parsed as floats: exactly for Python numbers, to 1e-9 relative otherwise)",
     "run_batch_and_measure([], n<=0) is treated as an invalid request (the sample count is non-positive); set EMPTY_BATCH_NONPOSITIVE_IS_INVALID = False to exclude that corner",
 ]
 DECIDING = [
@@ -321,7 +324,8 @@ def _record_reads_as(rc, circuit):
                 fa, fb = float(a), float(b)
             except Exception:
                 continue
-            if abs(fa - fb) > 1e-9 * max(1.0, abs(fb)):
+            exact = type(b) in (int, float)  # repr() of a Python number reads back as the same number
+            if (fa != fb) if exact else (abs(fa - fb) > 1e-9 * max(1.0, abs(fb))):
                 return f"operation #{i} ({G.op_name(o)}) has parameter {a!r} for {b!r}"
     return None
 
@@ -848,6 +852,36 @@ def _plan_call(rng, target_kinds, pool, sim, can_fail):
     return call
 
 
+def _with_neighbour_calls(rng, calls, how, sim):
+    """fresh classes: after one accepted call in four the SAME request is issued again with every circuit replaced
+    by a relative of it (its parent or a child in the family: one mutation away, e.g. a parameter that differs by
+    1e-9), on the same or the other target, as a single run, a distribution request or inside a batch next to the
+    original - so that near-identical requests also arrive back to back, whatever came before"""
+    rel = {}
+    for i, h in enumerate(how):
+        if "(" in h:
+            j = int(h[h.index("(") + 1:-1]) + 1  # how[0] is the empty circuit, parents are family indices
+            rel.setdefault(i, []).append(j)
+            rel.setdefault(j, []).append(i)
+    out = []
+    for c in calls:
+        out.append(c)
+        if c["expect"] != "ok" or not c["cidx"] or rng.random() > 0.25 or not any(i in rel for i in c["cidx"]):
+            continue
+        twin = dict(c)
+        twin["cidx"] = [rng.choice(rel[i]) if i in rel and rng.random() < 0.8 else i for i in c["cidx"]]
+        shape = rng.random()
+        if c["op"] == "single" and shape < 0.25:
+            twin["op"] = "dist"  # a run followed by a distribution request for the relative
+        elif c["op"] == "single" and shape < 0.5:
+            twin["op"], twin["cidx"] = "batch", [c["cidx"][0], twin["cidx"][0], c["cidx"][0]]
+            twin["n"] = [c["n"], c["n"] + 1, c["n"] + 2] if isinstance(c["n"], int) else c["n"]
+        elif c["op"] in ("wf", "exact") or (c["op"] == "dist" and c["n"] is None):
+            pass
+        out.append(twin)
+    return out
+
+
 def _call_str(call):
     n = call["n"]
     ns = ("(" + ",".join(map(str, n)) + ")" if isinstance(n, tuple) else
@@ -957,6 +991,8 @@ def run_case(ctx):
     ncalls = rng.randint(20, 60) if ctx.quick else rng.randint(20, 200)
     targets = ["T", "T", "R"] if tracked else ["R"]
     calls = [_plan_call(rng, targets, pool, sim, can_fail=(base == "echo")) for _ in range(ncalls)]
+    if fresh:
+        calls = _with_neighbour_calls(rng, calls, how, sim)
     live_idx, drop_early = (), False
     if fresh:
         live_idx = tuple(i for i in range(len(pool)) if rng.random() < 0.2)  # these stay alive for the whole history
